@@ -104,5 +104,5 @@ def make_frame(X, index="range0", columns="default", dtype="float64"):
     if X.ndim == 1:
         X = X.reshape(-1, 1)
     n, p = X.shape
-    cols = list(range(p)) if columns == "default" else [f"c{chr(97 + j)}" for j in range(p)]
+    cols = list(range(p)) if columns == "default" else ["zeta", "alpha", "mid", "b2", "a1", "q", "r7"][:p]
     return pd.DataFrame(X, index=make_index(index, n), columns=cols)
